@@ -1,7 +1,7 @@
 """C06 — number of active flavours follows the thresholds and the scheme."""
 import numpy as np
 from lib import common, cards, runs, spec
-from corr import thresholds, wlayer
+from corr import thresholds, wlayer, scalevar
 
 LEVEL = "proof"
 TRUSTED = ["Coq 8.16.1 kernel + vm_compute", "tools/corr/thresholds.py (harness, float->rational conversion)",
@@ -114,6 +114,8 @@ def run(chk):
     chk.oblige("correspondence update_fns (exhaustive)", not bad, str(bad[:1]))
     bad2 = thresholds.run_thresholds(chk, 120 if quick else 1500)
     chk.oblige("correspondence Atlas walls / nf_default", not bad2, str(bad2[:1]))
+    bad3 = scalevar.run_scalevar(chk, 25 if quick else 300)
+    chk.oblige("correspondence ScaleVariations: the beta coefficients follow the nf handed over, also when one manager serves several nf", not bad3, str(bad3[:1])[:500])
     patrol(chk, 9 if quick else 150)
     if chk.red() and not chk.violations:
         patrol(chk, 120)
